@@ -10,12 +10,12 @@ CASE_TYPE = "tcase"
 DRIVER_PKG = "cmd/verif_c11"
 SHARD = 200
 
-FIX = ["F11a", "F11b", "F11c", "F11d"]   # fix_endctx, fix_verify, fix_panic, fix_chunk
+FIX = ["F11a", "F11b", "F11c", "F11d", "F11e"]   # fix_endctx, fix_verify, fix_panic, fix_chunk, fix_clone
 VARIANTS = []
-for a, b, c, d in itertools.product([False, True], repeat=4):   # same order as all_variants in Check/C11Check.v
+for a, b, c, d, e in itertools.product([False, True], repeat=5):   # same order as all_variants in Check/C11Check.v
     fx = lambda x: "fixed" if x else "current"
-    VARIANTS.append({"name": "endctx=%s,verify=%s,panic=%s,chunk=%s" % (fx(a), fx(b), fx(c), fx(d)),
-                     "findings": [f for f, fixed in zip(FIX, (a, b, c, d)) if not fixed]})
+    VARIANTS.append({"name": "endctx=%s,verify=%s,panic=%s,chunk=%s,clone=%s" % (fx(a), fx(b), fx(c), fx(d), fx(e)),
+                     "findings": [f for f, fixed in zip(FIX, (a, b, c, d, e)) if not fixed]})
 RULE = ("configuration cases = source {dataset, sample, slow} x transform {none, js, js with parallelism 10 on pages of 15, js whose transform stage panics (injected by the harness), js that returns no entity} x sink "
         "{devnull, dataset, dataset that does not exist} x trigger {cron, onchange} x job type x handler set {none, log, rerun, "
         "log+rerun, unknown type, 'Log'} (+ kill for the slow source): the whole lattice (thorough, 1440 configurations) or the "
@@ -84,6 +84,8 @@ def witness_cases():
         cfg(transform="panic", trigger="onchange"),
         cfg(transform="panic", jobType="fullsync"),
         cfg(transform="jspar"), cfg(transform="jspar", source="sample", trigger="onchange"),     # F11d (= F10b): chunk arithmetic
+        cfg(transform="jspar", handlers="log"), cfg(transform="jspar", handlers="logrerun", sink="dataset"),   # F11e: shared JS runtime
+    ] + [cfg(source=sr, transform="jspar", sink=sk, handlers="log") for sr in ("dataset", "sample", "slow") for sk in ("devnull", "dataset")] + [
         # a filtering transform empties the batch, the sink rejects it, log handler: recorded failure, no bisection
         cfg(source="sample", transform="empty", sink="missing", handlers="log"),
         cfg(transform="empty", sink="missing", handlers="logrerun", jobType="incremental"),
@@ -191,10 +193,21 @@ def has_log(c):
     return c["handlers"] == "Log" and c["trigger"] == "cron"
 
 
+def racy(c):
+    return has_log(c) and c["transform"] == "jspar" and c["jobType"] == "incremental" and not c["kill"] and not (
+        c["handlers"] == "bad" and c["trigger"] == "cron")
+
+
 def attribute(c, o):
-    if c["kind"] != "cfg" or not o.get("accepted") or o.get("live") == "alive":
+    if c["kind"] != "cfg" or not o.get("accepted"):
         return None
     d = o.get("detail", "")
+    if racy(c) and "injected panic" not in d and "makeslice" not in d and not ("stack overflow" in d and "EndStoreContext" not in d):
+        if "EndStoreContext" in d:
+            return "F11a"
+        return "F11e"      # shared JS runtime in the parallel workers: whatever went wrong in this run
+    if o.get("live") == "alive":
+        return None
     if "stack overflow" in d and "EndStoreContext" in d and c["transform"] != "none" and has_log(c):
         return "F11a"
     if "nil pointer" in d and c["trigger"] == "onchange" and has_log(c):
